@@ -9,6 +9,8 @@ import (
 	"go/types"
 	"os"
 	"path/filepath"
+	"runtime/debug"
+	"runtime/pprof"
 	"sort"
 	"strconv"
 	"strings"
@@ -55,6 +57,7 @@ func main() {
 	maxFan := flag.Int("maxfan", 64, "concretization fan-out cap")
 	trace := flag.Bool("trace", false, "trace calls (debug)")
 	flag.IntVar(&QueryTimeoutMs, "qtimeout", 10000, "per-query solver timeout ms")
+	cpuprof := flag.String("cpuprofile", "", "write cpu profile")
 	selftest := flag.Bool("selftest", false, "run engine self checks and exit")
 	flag.Parse()
 	if *selftest {
@@ -67,6 +70,12 @@ func main() {
 		return
 	}
 
+	if *cpuprof != "" {
+		f, _ := os.Create(*cpuprof)
+		pprof.StartCPUProfile(f)
+		defer pprof.StopCPUProfile()
+	}
+	debug.SetGCPercent(800)
 	t0 := time.Now()
 	cfg := &packages.Config{Mode: packages.LoadAllSyntax, Dir: *dir, BuildFlags: []string{"-tags=verif"},
 		Env: append(os.Environ(), "GOFLAGS=-mod=mod", "GOPROXY=off", "GOSUMDB=off")}
@@ -190,6 +199,7 @@ func main() {
 				sh.mu.Lock()
 				sh.Queries += solver.Queries
 				sh.SolverTime += solver.Time
+				if false { fmt.Fprintf(os.Stderr, "solver: prep %v check %v model %v total %v\n", solver.TPrep, solver.TCheck, solver.TModel, solver.Time) }
 				sh.mu.Unlock()
 				solver.Close()
 			}()
@@ -212,7 +222,7 @@ func main() {
 		"wall_s": time.Since(t0).Seconds(), "steps": sh.Steps, "max_path_steps": sh.MaxSteps, "pending": len(sh.work),
 		"leaks": sh.Leaks, "terms": numTerms(), "witnesses": sh.Witnesses, "functions": funcs,
 		"timed_out": sh.TimedOut, "aborted_vacuous": sh.Aborted, "map_sites": sh.MapSites, "solver": *z3bin,
-		"maporder": *mapOrder, "stubs": sh.stubList(), "completed": sh.Completed, "argsets": conf.argstrs, "workers": *workers, "maxsteps": *maxSteps,
+		"maporder": *mapOrder, "decided_by_domain": sh.domDecided.Load(), "stubs": sh.stubList(), "completed": sh.Completed, "argsets": conf.argstrs, "workers": *workers, "maxsteps": *maxSteps,
 	}
 	b, _ := json.MarshalIndent(out, "", " ")
 	if *outFile != "" {
@@ -260,6 +270,7 @@ func worker(conf *Config, sh *Shared, solver *Solver, maxFan int) {
 			ex.in = in
 			ex.prefix, ex.extra = item.prefix, item.extra
 			ex.known = map[*Term]bool{}
+			ex.doms = map[*Term]*dom{}
 			ex.setModel(model)
 			runPath(in, ex, conf)
 			sh.mu.Lock()
